@@ -241,8 +241,45 @@ func cellTrackable(a *ssa.Alloc) bool {
 				return false
 			}
 		case *ssa.DebugRef:
+		case *ssa.MakeClosure:
+			// captured by a closure that only reads it: the enclosing function stays the only writer
+			if !closureOnlyReads(x, a) {
+				return false
+			}
 		default:
 			return false
+		}
+	}
+	return true
+}
+
+// closureOnlyReads: every free variable of the closure bound to cell a is used only as a load address.
+func closureOnlyReads(mc *ssa.MakeClosure, a *ssa.Alloc) bool {
+	fn, ok := mc.Fn.(*ssa.Function)
+	if !ok {
+		return false
+	}
+	for i, b := range mc.Bindings {
+		if b != a {
+			continue
+		}
+		if i >= len(fn.FreeVars) {
+			return false
+		}
+		refs := fn.FreeVars[i].Referrers()
+		if refs == nil {
+			return false
+		}
+		for _, r := range *refs {
+			switch x := r.(type) {
+			case *ssa.UnOp:
+				if x.Op != token.MUL {
+					return false
+				}
+			case *ssa.DebugRef:
+			default:
+				return false
+			}
 		}
 	}
 	return true
